@@ -1,6 +1,7 @@
 package main
 
 import (
+	"bytes"
 	"context"
 	"fmt"
 	"math/big"
@@ -13,7 +14,67 @@ import (
 
 // C16: every document is processed under a custom hasher while the *global default* is a poison hasher:
 // any silent fallback to the default changes an observable hash.
+// the hasher option together with the other merklizer options (IPFS client / gateway, safe mode, a caller's tree): none of them
+// may cost the configured hasher. Inline context, so no loader is needed.
+func emitOptionCombinations(out *Out, r *Rng) {
+	doc := []byte(`{"@context":{"xsd":"http://www.w3.org/2001/XMLSchema#","ex":"urn:ex:","b":{"@id":"ex:b","@type":"xsd:boolean"},"n":{"@id":"ex:n","@type":"xsd:integer"},` +
+		`"s":{"@id":"ex:s","@type":"xsd:string"},"k":{"@id":"ex:k"}},"@id":"urn:x","b":true,"n":-5,"s":"text","k":{"@id":"urn:y","s":"inner"}}`)
+	ctx := context.Background()
+	for _, hs := range []HSpec{hSalted(), hSmallShared(65537), hShifted()} {
+		combos := map[string][]merklize.MerklizeOption{
+			"hasher+ipfs-client":  {merklize.WithHasher(hs.H), merklize.WithIPFSClient(rawIPFS{&scriptedOrigin{docs: map[string]*orgEntry{}}, map[string]string{}})},
+			"ipfs-gateway+hasher": {merklize.WithIPFSGateway("https://gw.example"), merklize.WithHasher(hs.H)},
+			"hasher+unsafe":       {merklize.WithHasher(hs.H), merklize.WithSafeMode(false)},
+			"hasher+own-tree":     {merklize.WithHasher(hs.H), merklize.WithMerkleTree(merklize.MerkleTreeSQLAdapter(mustTree()))},
+			"hasher-only":         {merklize.WithHasher(hs.H)},
+		}
+		for name, opts := range combos {
+			var why []string
+			mz, err := merklize.MerklizeJSONLD(ctx, bytes.NewReader(doc), opts...)
+			if err != nil {
+				why = append(why, "merklization fails: "+err.Error())
+			} else {
+				for _, e := range mz.VerifEntries() {
+					parts := e.VerifKeyParts()
+					wantK, kerr := pathHash(hs, parts)
+					p2, err := mz.Options().NewPath(parts...)
+					if kerr != nil || err != nil {
+						continue
+					}
+					if k2, err := p2.MtEntry(); err != nil || k2.Cmp(wantK) != 0 {
+						why = append(why, fmt.Sprintf("%s: a path made through Options() for %v does not hash with the configured hasher", name, parts))
+						break
+					}
+					proof, value, err := mz.Proof(ctx, p2)
+					if err != nil || value == nil || !proof.Existence {
+						why = append(why, fmt.Sprintf("%s: no existence proof for the member %v through a path made by Options()", name, parts))
+						break
+					}
+					if vh, err := value.MtEntry(); err != nil || !merkletree.VerifyProof(mz.Root(), proof, wantK, vh) {
+						why = append(why, fmt.Sprintf("%s: the proof for %v does not verify with the configured hasher's key", name, parts))
+						break
+					}
+				}
+				if rp, err := mz.ResolveDocPath("k.s"); err != nil {
+					why = append(why, name+": ResolveDocPath fails: "+err.Error())
+				} else if kk, err := rp.MtEntry(); err == nil {
+					if want, err := pathHash(hs, rp.Parts()); err == nil && kk.Cmp(want) != 0 {
+						why = append(why, name+": a path from ResolveDocPath does not hash with the configured hasher")
+					}
+				}
+				if hh := mz.Hasher(); hh == nil || hh.Prime().Cmp(hs.Prime) != 0 {
+					why = append(why, name+": Merklizer.Hasher() is not the configured hasher")
+				}
+			}
+			out.Emit(Case{Op: "none", In: J{"options": name, "h": hs.JSON}, Impl: J{}, Prop: propOf(why), Tags: []string{"option-combination", "h:" + hs.Name}, NT: true})
+		}
+	}
+}
+
 func genC16(out *Out, r *Rng, tier string, n int, shard int) {
+	if shard == 0 {
+		emitOptionCombinations(out, r)
+	}
 	hss := []HSpec{hSalted(), hShifted(), hSmallShared(2305843009213693951), hSmallShared(65537), hPoseidon()}
 	for i := 0; i < n; i++ {
 		hs := hss[i%len(hss)]
